@@ -820,6 +820,38 @@ func c05Program(rt *rapid.T) (c05Case, map[string]int) {
 			ib.WriteString(d + "\n")
 		}
 	}
+	// annotated defined types that are not structs: an interface type (its method
+	// set is its own methods, a pointer to it has none), a defined pointer type (no methods at all)
+	if !ifaces[0].Local && g.chance("ifaceTyped", 30) {
+		amp := ""
+		if g.chance("ifaceTypedAmp", 35) {
+			amp = "&"
+		}
+		it := ifaces[0]
+		fmt.Fprintf(&ib, "// @implements %s%s%s\n", amp, q, it.Name)
+		switch g.pick("ifaceTypedShape", 4) {
+		case 0:
+			fmt.Fprintf(&ib, "type TIfc interface{ %s%s }\n\n", q, it.Name)
+			classes["annotated interface type embedding the interface"]++
+		case 1, 2:
+			ms := allMethods(it)
+			drop := -1
+			if g.chance("ifaceTypedDrop", 50) {
+				drop = g.pick("ifaceTypedDropIdx", len(ms))
+			}
+			ib.WriteString("type TIfc interface {\n")
+			for k, m := range ms {
+				if k != drop {
+					fmt.Fprintf(&ib, "\t%s%s\n", m.Name, m.Sig.render(q, false))
+				}
+			}
+			ib.WriteString("\tExtraIfcM()\n}\n\n")
+			classes["annotated interface type declaring the methods itself"]++
+		default:
+			ib.WriteString("type TPtrDef *T0\n\n")
+			classes["annotated defined pointer type"]++
+		}
+	}
 	// a type aimed at the alias of an interface literal
 	if g.chance("litAlias", 30) {
 		amp := ""
